@@ -533,7 +533,9 @@ def expected_rows(spec, part, opts, rests=False):
         if opts.get("include_staff"):
             r.update(staff=n["staff"] or 0)
         if opts.get("include_divs_per_quarter"):
-            r.update(divs_pq=spec_divs(spec))
+            # what the score states AT THE ONSET (the implementation refuses parts with several divisions; a table
+            # that comes back for such a part must still say the divisions in force at each onset)
+            r.update(divs_pq=[q for t, q in sorted(spec["qd"]) if t <= n["s"]][-1] if any(t <= n["s"] for t, q in spec["qd"]) else spec_divs(spec))
         rows.append(r)
     return rows, maps
 
@@ -1027,7 +1029,7 @@ def run_coq(ctx, name, terms, cases, checker, what):
         ctx.obligation("correspondence: %s on 0 cases" % what, False, "no case generated")
         return
     try:
-        failing = ctx.coq_failing(name, "From PV Require Import Lib.Base Model.C05 Model.C05_Ext Model.C05_Inv Model.C05_Disp Model.C05_Voice Model.C05_Hist.\nFrom Coq Require Import QArith.", "", terms, checker, shard=40)
+        failing = ctx.coq_failing(name, "From PV Require Import Lib.Base Model.C05 Model.C05_Ext Model.C05_Inv Model.C05_Disp Model.C05_Voice Model.C05_Hist Model.C05_Sel.\nFrom Coq Require Import QArith.", "", terms, checker, shard=40)
     except RuntimeError as e:
         ctx.obligation("correspondence: %s" % what, False, str(e)[-1500:])
         ctx.violation("correspondence machinery failed for %s: %s" % (name, str(e)[-800:]), {"stage": name}, no_input=True)
@@ -2147,6 +2149,32 @@ def check_inverse_list(cases):
     return check_rebuilt_voices(sc)[0]
 
 
+def divs_from_beats_shifted(case, shift):
+    """create_divs_from_beats on the beat columns of the case with every onset moved by -shift (a dyadic fraction: exact in
+    float32), i.e. an array whose smallest onset is negative -- the branch of the function that shifts the onset column.
+    Returns (message or None, onsets, durations, divs, onset_div column, duration_div column)."""
+    import numpy as np
+    from partitura.musicanalysis.note_array_to_score import create_divs_from_beats
+    arr = build_inverse_array(case)
+    arr = arr.copy()
+    arr["onset_beat"] = arr["onset_beat"] - float(shift)
+    try:
+        na, d = create_divs_from_beats(arr)
+    except Exception as e:
+        return "create_divs_from_beats raised %s: %s" % (type(e).__name__, e), None, None, None, None, None
+    ons = [Fraction(float(x)).limit_denominator(256) for x in arr["onset_beat"]]
+    dus = [Fraction(float(x)).limit_denominator(256) for x in arr["duration_beat"]]
+    d = int(d)
+    od = [int(x) for x in na["onset_div"]]
+    dd = [int(x) for x in na["duration_div"]]
+    k = min(min(ons), 0)       # the column may be moved by ONE constant, and only when an onset is negative
+    for i in range(len(ons)):
+        if Fraction(od[i], d) != ons[i] - k or Fraction(dd[i], d) != dus[i]:
+            return ("create_divs_from_beats (onsets moved by -%s: smallest onset %s): divs=%d turns onset %s / duration %s into %d / %d "
+                    "divisions; expected %s / %s" % (shift, min(ons), d, ons[i], dus[i], od[i], dd[i], (ons[i] - k) * d, dus[i] * d)), ons, dus, d, od, dd
+    return None, ons, dus, d, od, dd
+
+
 def stage_inverse(ctx, n_cases, n_metrical):
     import numpy as np
     from partitura.musicanalysis.note_array_to_score import create_divs_from_beats, create_beats_from_divs
@@ -2203,10 +2231,25 @@ def stage_inverse(ctx, n_cases, n_metrical):
                               % (int(d), ons[i], dus[i], int(na["onset_div"][i]), int(na["duration_div"][i])),
                               {"kind": "inverse", "case": case, "message": "create_divs_from_beats inexact"})
                 continue
+            # round j (onset_column_roundtrip): the sign of the smallest onset decides whether the column is shifted
+            ctx.count("inverse:divs_from_beats:smallest_onset_%s" % ("negative(shifted)" if min(ons) < 0 else "zero" if min(ons) == 0 else "positive(kept)"))
             terms.append("((%s : list Q), (%s : list Q), (%s, (%s : list Z), (%s : list Z)))"
                          % (clist([cq(x) for x in ons]), clist([cq(x) for x in dus]), cz(int(d)),
                             clist([cz(int(x)) for x in na["onset_div"]]), clist([cz(int(x)) for x in na["duration_div"]])))
             cases.append({"kind": "inverse", "case": case})
+            # round j: the same array with its onsets moved below zero (the shifting branch; the generated onsets are never negative)
+            if rng.random() < 0.6:
+                shift = Fraction(rng.randint(1, 24), rng.choice([1, 2, 4]))
+                smsg, ons2, dus2, d2, od2, dd2 = divs_from_beats_shifted(case, shift)
+                ctx.evaluations += 1
+                if smsg:
+                    ctx.violation(smsg, {"kind": "divs_from_beats", "case": case, "shift": str(shift), "message": smsg})
+                    continue
+                ctx.count("inverse:divs_from_beats:smallest_onset_%s" % ("negative(shifted)" if min(ons2) < 0 else "zero" if min(ons2) == 0 else "positive(kept)"))
+                terms.append("((%s : list Q), (%s : list Q), (%s, (%s : list Z), (%s : list Z)))"
+                             % (clist([cq(x) for x in ons2]), clist([cq(x) for x in dus2]), cz(d2),
+                                clist([cz(x) for x in od2]), clist([cz(x) for x in dd2])))
+                cases.append({"kind": "divs_from_beats", "case": case, "shift": str(shift)})
         elif case["kind"] == "div":
             d = case["divs"]
             nb = create_beats_from_divs(arr, d)
@@ -2759,6 +2802,106 @@ def stage_corpus(ctx, mp_ok):
 
 
 # ----------------------------------------------------------------------------
+# round j: the entry functions of a part (selection of the maps for the optional columns, the refusal of
+# include_divs_per_quarter on a part with several entries of divisions) against Model/C05_Sel.v
+
+ENTRY_CHECKER = "fun c => match c with (p, o, rests, impl) => entry_case_ok p o rests impl end"
+
+
+def part_qd(part):
+    """The divisions as the PART OBJECT holds them (public API): [(time, divisions)]."""
+    return [(int(t), int(d)) for t, d in part.quarter_durations()]
+
+
+def gen_entry_spec(rng, pi):
+    """(spec, kind of divisions): one entry 45 %, a change to other divisions 30 %, a second entry that repeats the
+    divisions 12 %, three entries 13 % (the kinds that need two measures fall back to 'one' without them)."""
+    r = rng.random()
+    want = "one" if r < 0.45 else "change" if r < 0.75 else "repeat" if r < 0.87 else "three"
+    for _ in range(40):
+        spec = gen_part_spec(rng, pid="E%d" % pi, allow_qd_change=(want in ("change", "three")))
+        multi = len(spec["qd"]) > 1
+        if want == "one" and not multi:
+            return spec, "one"
+        if want == "change" and multi:
+            return spec, "change"
+        if want == "repeat" and not multi and len(spec["measures"]) >= 2:
+            spec["qd"].append([spec["measures"][-1][0], spec["qd"][0][1]])
+            return spec, "repeat"
+        if want == "three" and multi:
+            later = [m[0] for m in spec["measures"] if m[0] > spec["qd"][1][0]]
+            if later:
+                spec["qd"].append([later[-1], spec["qd"][1][1] + rng.choice([1, 2, 3])])     # a third entry (the maps are the part's own)
+                return spec, "three"
+    spec = gen_part_spec(rng, pid="E%d" % pi, allow_qd_change=False)
+    return spec, "one"
+
+
+def stage_entry(ctx, n, mp_ok):
+    """One call of Part.note_array / Part.rest_array per case; the oracle of the part stream judges the table, the Coq
+    model of the entry function (C05_Sel.entry_case_ok) must refuse exactly when the implementation raises the declared
+    exception and build the same table -- column groups present exactly as asked for -- otherwise."""
+    rng = ctx.rng
+    terms, cases = [], []
+    for pi in range(n):
+        spec, kind = gen_entry_spec(rng, pi)
+        rests = rng.random() < 0.2
+        names = REST_OPT_NAMES if rests else OPT_NAMES
+        k = rng.random()
+        if k < 0.15:
+            opts = {nm: False for nm in names}
+        elif k < 0.3:
+            opts = {nm: True for nm in names}
+        elif k < 0.5:                                  # exactly one option
+            one = rng.choice(names)
+            opts = {nm: nm == one for nm in names}
+        else:
+            opts = {nm: rng.random() < 0.5 for nm in names}
+        if not rests and rng.random() < 0.35:
+            opts["include_divs_per_quarter"] = True
+        if not mp_ok:
+            opts["include_metrical_position"] = False
+        part, _ = build_part(spec)
+        qd = part_qd(part)
+        status, msg, rows, maps = check_part(spec, opts, rests=rests, part=part)
+        ctx.evaluations += 1
+        ctx.count("entry:" + status)
+        ctx.count("entry:divisions_" + kind)
+        ctx.count("entry:qd_entries_on_the_part=%d" % min(len(qd), 3))
+        ctx.count("entry:" + ("rest_array" if rests else "note_array"))
+        ctx.count("entry:options_on=%d" % sum(1 for v in opts.values() if v))
+        if not rests:
+            ctx.count("entry:divs_pq_%s,%s" % ("asked" if opts["include_divs_per_quarter"] else "not_asked",
+                                              "one_entry" if len(qd) == 1 else "several_entries"))
+        if status == "FAIL":
+            ctx.violation("Part.%s(%s): %s" % ("rest_array" if rests else "note_array", fmt_opts(opts), msg),
+                          {"kind": "part", "spec": spec, "opts": opts, "rests": rests, "message": msg})
+            continue
+        if status not in ("ok", "rejected"):
+            continue
+        am = all_maps(part, spec, rests)
+        if am["errors"]:
+            ctx.count("entry:map_unavailable")
+            continue
+        if status == "rejected":
+            impl = "(None : option (list obs))"
+        else:
+            nm = rows[0]["_names"] if rows else ()
+            if not rows:
+                ctx.count("entry:empty_table")
+            impl = "(Some (%s : list obs))" % clist([c_obs(r, nm, rests) for r in rows])
+        o7 = dict(opts)
+        o7.setdefault("include_divs_per_quarter", False)
+        pd = "(mkPart %s %s (%s : list (Z * Z)))" % (c_notes(spec), c_maps(am), clist([ctuple([cz(t), cz(d)]) for t, d in qd]))
+        terms.append("(%s, %s, %s, %s)" % (pd, c_opts(o7), cbool(rests), impl))
+        cases.append({"kind": "part", "spec": spec, "opts": opts, "rests": rests})
+        ctx.nontrivial(("entry", spec, opts, rests))
+    run_coq(ctx, "entry", terms, cases, ENTRY_CHECKER,
+            "model note_array_from_part / rest_array_from_part (maps handed over per option, tuples built group by group, "
+            "refusal of include_divs_per_quarter on several entries of divisions) = Part.note_array / Part.rest_array")
+
+
+# ----------------------------------------------------------------------------
 
 
 def run(ctx):
@@ -2787,7 +2930,11 @@ def run(ctx):
                 "with the same measures repeated in every part, members[i] = part, append) and read after every change through Score.note_array, "
                 "ensure_notearray(score) and the list / PartGroup entry points on the same parts, 60 % of the readings with the session's main "
                 "options; every reading is judged against the parts held at that moment; every returned array is written into by the harness.  "
-                "divs handed to note_array_to_score as Python int (50 %), numpy int64 or int32.  Distinct non-trivial = distinct (specification, options[, arrangement]) "
+                "divs handed to note_array_to_score as Python int (50 %), numpy int64 or int32.  Entry stream (round j): one call of "
+                "Part.note_array (80 %) / Part.rest_array per generated part whose divisions have one entry (45 %), change (30 %), a redundant "
+                "second entry (12 %) or three entries (13 %), options none / all / exactly one / random (15 / 15 / 20 / 50 %), "
+                "include_divs_per_quarter forced on in a further 35 %; judged by the part oracle and by the Coq model of the entry "
+                "function (refusal = refusal, column groups present exactly as asked for).  Distinct non-trivial = distinct (specification, options[, arrangement]) "
                 "whose specification has at least one of the counted features (parts), differing divisions / a part without notes / a "
                 "nested arrangement (scores), every history, every session, every inverse case.")
     ctx.trusted = ["Coq 8.16.1 kernel incl. vm_compute",
@@ -2815,7 +2962,7 @@ def run(ctx):
     # C05-K1 (findings.d/C05.json): exactly the failure "a note / rest of the part states voice -1 and the voice column
     # says something else", everything else in the table being right
     ctx.matchers["C05-K1"] = is_k1
-    ok, why = ctx.coq_props(expect_min=52)
+    ok, why = ctx.coq_props(expect_min=64)
     if not ok:
         ctx.log("coq_props failed: " + why[:2000])
     mp_ok = probe_metrical_position()
@@ -2835,6 +2982,8 @@ def run(ctx):
     stage_sessions(ctx, n=(120 if quick else 1500), n_coq=(40 if quick else 300))
     ctx.log("inverse direction")
     stage_inverse(ctx, n_cases=(160 if quick else 2500), n_metrical=(220 if quick else 2500))
+    ctx.log("entry functions of a part (selection of the maps, refusal)")
+    stage_entry(ctx, n=(160 if quick else 1500), mp_ok=mp_ok)
     if not ok and len(ctx.violations) == nv0:
         ctx.violation("proof obligations of Props/C05.v no longer check: " + why, {"theorem_or_build": why}, no_input=True)
 
@@ -2899,6 +3048,12 @@ def replay(obj):
     elif kind == "inverse":
         print("array:\n", build_inverse_array(r["case"]))
         print("oracle:", check_inverse(r["case"])[0])
+    elif kind == "divs_from_beats":
+        print("array (before every onset is moved by -%s):\n" % r["shift"], build_inverse_array(r["case"]))
+        res = divs_from_beats_shifted(r["case"], Fraction(r["shift"]))
+        print("onsets:", [str(x) for x in res[1] or []], " durations:", [str(x) for x in res[2] or []])
+        print("create_divs_from_beats: divs", res[3], " onset_div", res[4], " duration_div", res[5])
+        print("oracle:", res[0])
     elif kind == "metrical":
         c = r["case"]
         arr = build_metrical_array(c)
